@@ -8,7 +8,23 @@ use crate::spec::{arity, Lang, VOCAB};
 
 const WORDS: &[&str] = &[
     "foo", "a.b", "*.txt", "x-y", "-o", "!", ",", "'a b'", "\"q r\"", "a'b", "caf\u{e9}", "-name", "-true", "0", "f", "a/b/c", "[a-z]*", "x=y", "%p", "a\\b", "~", "{}", "+5",
+    // backslashes are ordinary characters in every quoting style ("returned with no processing")
+    "\"a\\\\b\"", "'a\\\\b'", "a\\\\b", "\"x\\\"", "'x\\'", "\"\\n\"", "\"\\\\\"", "\"a\\'b\"", "'$HOME'", "\"$x\"", "\"`x`\"",
 ];
+
+/// a generated word: 1-6 characters over an alphabet of awkward ones, in a quoting style that can carry it
+fn gen_word(r: &mut Rng) -> String {
+    if !r.chance(1, 3) {
+        return r.pick(WORDS).to_string();
+    }
+    let alpha = ['a', 'b', '\\', '\\', '"', '\'', ' ', '%', '~', '*', '\u{e9}', '-', '$', '`', '{', '}', '@', '/', '.', 'i', ':', '0', 'n'];
+    let n = 1 + r.usize(6);
+    let s: String = (0..n).map(|_| alpha[r.usize(alpha.len())]).collect();
+    match crate::gen::word(&s, r.below(3) as u8) {
+        Some(w) if !w.starts_with('-') && !w.starts_with('(') && !w.starts_with('!') && !w.starts_with(',') => w,
+        _ => r.pick(WORDS).to_string(),
+    }
+}
 const FORMATS: &[&str] = &[
     "%p", "'%p\\n'", "\"%p %s\\n\"", "'a b %U'", "x", "%%", "'%{fid}:%{projid}'", "'%A@,%C@,%T@'", "'%AH %TY'", "\\n", "'\\101\\t'", "'%{xattr:user}'", "'lit\\\\%m'", "%d", "'%y%Y'", "'\\c'",
     "'\\f'", "'%h/%f'", "'\\012x'", "'\\000'", "'a\\011b'", "'\\0'", "'\\07z'", "'%{stripe-count}-%{stripe-size}-%{mirror-count}'",
@@ -19,8 +35,8 @@ pub fn member_args(lang: Lang, r: &mut Rng) -> Vec<String> {
     let zeros = |r: &mut Rng| "0".repeat(if r.chance(1, 4) { 1 + r.usize(3) } else { 0 });
     match lang {
         Lang::None => vec![],
-        Lang::Word => vec![r.pick(WORDS).to_string()],
-        Lang::Word2 => vec![r.pick(WORDS).to_string(), r.pick(WORDS).to_string()],
+        Lang::Word => vec![gen_word(r)],
+        Lang::Word2 => vec![gen_word(r), gen_word(r)],
         Lang::CountU32 => {
             let v = match r.below(5) {
                 0 => 0,
@@ -89,7 +105,7 @@ pub fn member_args(lang: Lang, r: &mut Rng) -> Vec<String> {
             }]
         }
         Lang::Format => vec![gen_fmt_word(r)],
-        Lang::WordFormat => vec![r.pick(WORDS).to_string(), gen_fmt_word(r)],
+        Lang::WordFormat => vec![gen_word(r), gen_fmt_word(r)],
     }
 }
 
